@@ -17,6 +17,34 @@ from agilerl.networks.actors import StochasticActor
 
 TOL = 1e-4
 OBS_DIM = 4
+
+
+def obs_space_of(kind):
+    if kind == "image":
+        return spaces.Box(0.0, 1.0, (3, 16, 16), dtype=np.float32)
+    if kind == "dict":
+        return spaces.Dict({"v": spaces.Box(-1.0, 1.0, (3,), dtype=np.float32), "d": spaces.Discrete(3)})
+    if kind == "discrete":
+        return spaces.Discrete(5)
+    return spaces.Box(-1.0, 1.0, (OBS_DIM,), dtype=np.float32)
+
+
+def sample_obs(kind, B, g):
+    if kind == "image":
+        return g.uniform(0, 1, (B, 3, 16, 16)).astype(np.float32)
+    if kind == "dict":
+        return {"v": g.uniform(-1, 1, (B, 3)).astype(np.float32), "d": g.integers(0, 3, (B,))}
+    if kind == "discrete":
+        return g.integers(0, 5, (B,))
+    return g.uniform(-1, 1, (B, OBS_DIM)).astype(np.float32)
+
+
+def to_net(kind, obs):
+    """what StochasticActor.forward expects: the algorithm-side preprocessing of a raw batch"""
+    if kind in (None, "vector"):
+        return torch.as_tensor(obs)
+    from agilerl.utils.algo_utils import preprocess_observation
+    return preprocess_observation(obs, obs_space_of(kind), "cpu", True)
 BIG = -1e8
 
 
@@ -61,6 +89,8 @@ def segments(sp):
 SCEN = {"fresh": "ScFresh", "reeval": "ScReeval", "stored": "ScStored", "ppo_get": "ScPPOGet", "ppo_eval": "ScPPOEval",
         "ppo_learn": "ScPPOLearn", "ippo_get": "ScFresh", "ippo_learn": "ScIPPOLearn"}
 IPPO_IDS = ["a_0", "a_1", "b_0"]
+IPPO_IDS2 = ["b_1", "a_0", "b_0", "a_1"]       # unsorted, two policy groups of equal size (first-seen group order: b, a)
+KEY_ORDERS = ["canonical", "reversed", "groups-swapped", "within-group-swapped", "sorted", "shuffled"]
 # what an actor can go through before it is evaluated: every mutation method it advertises, an activation change, clone()
 # of the network and clone() of its distribution head
 PREPS = ["add_latent_node", "remove_latent_node", "encoder.add_node", "encoder.remove_node", "head_net.add_layer", "head_net.remove_layer",
@@ -249,6 +279,11 @@ class C16(vlib.Driver):
                              "std_init": rng.choice([-1.0, 0.0, 0.5]), "std_perturb": rng.random() < 0.5,
                              "mask_kind": rng.choice(["partial", "partial", "single", "ones"]) if masked else "none",
                              "partial_cfg": rng.random() < 0.3}
+                        if masked and api == "actor" and rng.random() < 0.2:
+                            c["mask_fmt"] = "list"
+                        if rng.random() < 0.2:
+                            c["obs_kind"] = rng.choice(["image", "dict", "discrete"])
+                            c["partial_cfg"] = True
                         cases.append(c)
             # learn() paths: what PPO / IPPO do with the stored actions of a rollout
             for sp in self.space_grid(rng, tier):
@@ -261,11 +296,21 @@ class C16(vlib.Driver):
                         if api == "ippo" and box:        # IPPO asserts max action > 0
                             sp2 = {"kind": "box", "low": [-abs(x) - 1.0 for x in sp["low"]], "high": [abs(x) + 0.5 for x in sp["high"]]}
                         T, Ee = rng.choice([2, 3]), rng.choice([1, 2])
-                        nrows = {"ppo_learn": T * Ee, "ippo_get": len(IPPO_IDS) * Ee, "ippo_learn": 2 * T * Ee}[scen]
+                        nrows = {"ppo_learn": T * Ee, "ippo_get": len(IPPO_IDS2) * Ee, "ippo_learn": 2 * T * Ee}[scen]
                         cases.append({"api": api, "scenario": scen, "variant": "", "space": sp2, "squash": squash, "masked": masked,
                                       "B": nrows, "T": T, "E": Ee, "seed": rng.randrange(10 ** 6), "logit_mode": rng.choice(["net", "scaled"]),
                                       "std_init": rng.choice([0.0, 0.5]), "std_perturb": rng.random() < 0.5,
                                       "mask_kind": rng.choice(["partial", "single"]) if masked else "none", "partial_cfg": False})
+                        if api == "ippo":      # two equal-sized policy groups, unsorted ids, caller-chosen key orders of obs / infos / experiences
+                            cases[-1].update({"ids": list(IPPO_IDS2), "okey": rng.choice(KEY_ORDERS), "ikey": rng.choice(KEY_ORDERS)})
+                # IPPO with masks: every combination class of key orders at least once per space kind (boundary-complete)
+                if not box:
+                    for ik in KEY_ORDERS:
+                        Ee = rng.choice([1, 2])
+                        cases.append({"api": "ippo", "scenario": "ippo_get", "variant": "", "space": sp, "squash": False, "masked": True,
+                                      "B": len(IPPO_IDS2) * Ee, "T": 2, "E": Ee, "seed": rng.randrange(10 ** 6), "logit_mode": "net",
+                                      "std_init": 0.0, "std_perturb": False, "mask_kind": rng.choice(["partial", "single", "single"]),
+                                      "partial_cfg": False, "ids": list(IPPO_IDS2), "okey": rng.choice(KEY_ORDERS), "ikey": ik})
             # actors that went through architecture mutations / clone() BEFORE they are evaluated (recreate_network, preserve_parameters,
             # clone re-build the EvolvableDistribution: squash flag, log_std and masks must survive)
             for sp in self.space_grid(rng, tier):
@@ -280,6 +325,19 @@ class C16(vlib.Driver):
                                       "std_init": rng.choice([-1.0, 0.0, 0.5]), "std_perturb": True,
                                       "mask_kind": rng.choice(["partial", "single"]) if masked else "none",
                                       "partial_cfg": rng.random() < 0.3, "prep": [prep] if rng.random() < 0.7 else [prep, rng.choice(PREPS)]})
+                    # clone -> mutate -> clone chains, and latent_dim next to its bounds (126+8 >= 128: refused; 120+8: accepted; 8-8: refused)
+                    for chain, ld in ([(["clone", "add_latent_node", "clone"], None), (["head_clone", "clone"], None),
+                                       (["add_latent_node"], 126), (["add_latent_node", "remove_latent_node"], 112), (["remove_latent_node"], 8),
+                                       (["remove_latent_node", "clone"], 24)] if (box and squash) or rng.random() < 0.25 else []):
+                        cases.append({"api": "actor", "scenario": rng.choice(["fresh", "stored"]), "variant": "other", "space": sp, "squash": squash,
+                                      "masked": masked, "B": rng.choice([1, 2, 3]), "seed": rng.randrange(10 ** 6), "logit_mode": "net",
+                                      "std_init": rng.choice([-1.0, 0.5]), "std_perturb": True, "mask_kind": "partial" if masked else "none",
+                                      "partial_cfg": False, "prep": chain, "latent_dim": ld})
+                    if (box and squash) or rng.random() < 0.25:
+                        cases.append({"api": "ppo", "scenario": "ppo_eval", "variant": "other", "space": sp, "squash": squash, "masked": masked,
+                                      "B": 3, "seed": rng.randrange(10 ** 6), "logit_mode": "net", "std_init": 0.5, "std_perturb": True,
+                                      "mask_kind": "partial" if masked else "none", "partial_cfg": False,
+                                      "prep": ["agent_clone", "add_latent_node", "agent_clone"], "latent_dim": rng.choice([None, 120])})
                     ppreps = list(PPO_PREPS) if (box and squash) else rng.sample(PPO_PREPS, 1 if tier == "quick" else 3)
                     for k, prep in enumerate(ppreps):
                         scen, variant = [("ppo_get", ""), ("ppo_eval", "other")][(k + rep) % 2]
@@ -318,7 +376,12 @@ class C16(vlib.Driver):
     def build_actor(self, case, g):
         sp = case["space"]
         kw = {} if case["partial_cfg"] else {"encoder_config": {"hidden_size": [8]}, "head_config": {"hidden_size": [8]}}
-        obs_space = spaces.Box(-1.0, 1.0, (OBS_DIM,), dtype=np.float32)
+        okind = case.get("obs_kind", "vector")
+        obs_space = obs_space_of(okind)
+        if okind != "vector":       # default encoder of that observation kind (CNN / multi-input / one-hot MLP)
+            kw = {"head_config": {"hidden_size": [8]}}
+        if case.get("latent_dim"):       # latent dimension next to its configured bound (add/remove_latent_node guards)
+            kw = dict(kw, latent_dim=case["latent_dim"])
         if case["api"] == "actor":
             actor = StochasticActor(obs_space, gym_space(sp), squash_output=case["squash"],
                                     action_std_init=case["std_init"], **kw)
@@ -328,6 +391,10 @@ class C16(vlib.Driver):
             nc = {"squash_output": case["squash"], "encoder_config": {"hidden_size": [8]}, "head_config": {"hidden_size": [8]}}
             if case["partial_cfg"] and not case["squash"]:
                 nc = {"encoder_config": {"hidden_size": [8]}}
+            if okind != "vector":
+                nc = {"squash_output": case["squash"], "head_config": {"hidden_size": [8]}}
+            if case.get("latent_dim"):
+                nc["latent_dim"] = case["latent_dim"]
             agent = PPO(obs_space, gym_space(sp), net_config=nc, action_std_init=max(case["std_init"], 0.0),
                         share_encoders=bool(case["seed"] % 2))
             actor = agent.actor
@@ -366,7 +433,9 @@ class C16(vlib.Driver):
             for q in parts[:-1]:
                 obj = getattr(obj, q)
             return getattr(obj, parts[-1])(**kw)
-        order = [q for q in case["prep"] if q != "head_clone"] + [q for q in case["prep"] if q == "head_clone"][:1]
+        order = list(case["prep"])
+        if "head_clone" in order and any(("." in q or "latent" in q) for q in order[order.index("head_clone") + 1:]):
+            order = [q for q in order if q != "head_clone"] + ["head_clone"]
         for prep in order:      # (a cloned EvolvableDistribution no longer advertises the head's mutation methods, so head_clone goes last)
             if prep == "clone":
                 actor = actor.clone()
@@ -411,15 +480,19 @@ class C16(vlib.Driver):
         box = sp["kind"] == "box"
         sq = case["squash"] and box
         D = flatdim(sp)
-        obs1 = g.uniform(-1, 1, (B, OBS_DIM)).astype(np.float32)
-        obs2 = obs1 if case["variant"] != "other" else g.uniform(-1, 1, (B, OBS_DIM)).astype(np.float32)
+        okind = case.get("obs_kind", "vector")
+        obs1 = sample_obs(okind, B, g)
+        obs2 = obs1 if case["variant"] != "other" else sample_obs(okind, B, g)
+        T_ = lambda o: to_net(okind, o)
         m1 = self.make_mask(sp, case["mask_kind"], B, g) if case["masked"] else None
         m2 = (m1 if case["variant"] != "other" else self.make_mask(sp, case["mask_kind"], B, g)) if case["masked"] else None
         env, out, hit = {}, {}, False
 
-        def fmt(m, k):      # the container types forward() accepts: int array, bool array, tensor (a python list raises: see design.d)
+        def fmt(m, k):      # the container types forward() accepts: int array, bool array, tensor, python list of per-row masks
             if m is None:
                 return None
+            if case.get("mask_fmt") == "list":
+                return [np.array(r) for r in m]
             return [m, m.astype(bool), torch.as_tensor(m)][(case["seed"] + k) % 3]
         if box:
             env["log_std"] = rows2(actor.head_net.log_std, 1)
@@ -442,15 +515,29 @@ class C16(vlib.Driver):
             if len(tap.logits) > idx:
                 return rows2(tap.logits[idx], B)
             with torch.no_grad():
-                return rows2(actor.head_net.wrapped(actor.extract_features(torch.as_tensor(obs))), B)
+                return rows2(actor.head_net.wrapped(actor.extract_features(T_(obs))), B)
 
         def unscale(a_scaled):
             lo, hi = np.array(sp["low"]), np.array(sp["high"])
             return (2.0 * (f64(a_scaled).reshape(B, -1) - lo) / (hi - lo) - 1.0)
 
-        with Tap(actor) as tap, torch.no_grad():
+        try:
+            return self._observe(case, agent, actor, tap_cls=Tap, ctx=locals())
+        except Exception as e:
+            if case.get("mask_fmt") == "list" and case["masked"]:      # the code under test raised on a list-valued mask
+                return {"env": env, "out": {}, "raised": f"{type(e).__name__}: {e}"}
+            raise
+
+    def _observe(self, case, agent, actor, tap_cls, ctx):
+        sp, B, scen = case["space"], case["B"], case["scenario"]
+        box = sp["kind"] == "box"
+        sq = case["squash"] and box
+        env, out, hit = ctx["env"], ctx["out"], False
+        fmt, T_, m1, m2, obs1, obs2 = ctx["fmt"], ctx["T_"], ctx["m1"], ctx["m2"], ctx["obs1"], ctx["obs2"]
+        draws_or, logits_or, unscale = ctx["draws_or"], ctx["logits_or"], ctx["unscale"]
+        with tap_cls(actor) as tap, torch.no_grad():
             if scen == "fresh":
-                a, lp, ent = actor(torch.as_tensor(obs1), fmt(m1, 0))
+                a, lp, ent = actor(T_(obs1), fmt(m1, 0))
                 env["logit"] = logits_or(tap, 0, obs1)
                 au = unscale(a) if sq else a
                 env["sampled"] = draws_or(tap, 0, au)
@@ -466,7 +553,7 @@ class C16(vlib.Driver):
                         out["lp_illegal"] = f64(actor.action_log_prob(t)).reshape(-1).tolist()
                         out["illegal_rows"] = ill["rows"]
             elif scen == "reeval":
-                latent = actor.extract_features(torch.as_tensor(obs1))
+                latent = actor.extract_features(T_(obs1))
                 a, lp, ent = actor.head_net.forward(latent, fmt(m1, 1))
                 lp2 = actor.action_log_prob(a)
                 env["logit"] = logits_or(tap, 0, obs1)
@@ -474,10 +561,10 @@ class C16(vlib.Driver):
                 out["lp"] = f64(lp).reshape(-1).tolist()
                 out["lp2"] = f64(lp2).reshape(-1).tolist()
             elif scen == "stored":
-                latent = actor.extract_features(torch.as_tensor(obs1))
+                latent = actor.extract_features(T_(obs1))
                 a, _, _ = actor.head_net.forward(latent, fmt(m1, 0))        # what a rollout stores (PPO: forward_head)
                 stored = a.clone()
-                a2, _, _ = actor(torch.as_tensor(obs2), fmt(m2, 1))
+                a2, _, _ = actor(T_(obs2), fmt(m2, 1))
                 lp2 = actor.action_log_prob(stored)
                 env["logit"] = logits_or(tap, 0, obs1)
                 env["logit2"] = logits_or(tap, 1, obs2)
@@ -501,6 +588,7 @@ class C16(vlib.Driver):
                     out["lp_shape"] = list(np.shape(lp))
                 else:
                     stored = torch.as_tensor(a_t)
+                    out["lp_rollout"] = f64(lp).reshape(-1).tolist()
                     lp2, ent2, _ = agent.evaluate_actions(obs2, stored)
                     env["logit2"] = logits_or(tap, 1, obs2)
                     nd = len(tap.draws)
@@ -596,20 +684,36 @@ class C16(vlib.Driver):
         sp, T, Ee, scen = case["space"], case["T"], case["E"], case["scenario"]
         box = sp["kind"] == "box"
         obs_space = spaces.Box(-1.0, 1.0, (OBS_DIM,), dtype=np.float32)
-        nids = len(IPPO_IDS)
+        IDS = list(case.get("ids") or IPPO_IDS)
+        nids = len(IDS)
         nsamp = 2 * T * Ee
         if case["squash"]:      # net_config cannot carry squash_output for IPPO (the critic rejects the key): pass the networks
             from agilerl.networks.value_networks import ValueNetwork
             kw = {"encoder_config": {"hidden_size": [8]}, "head_config": {"hidden_size": [8]}}
-            agent = IPPO([obs_space] * nids, [gym_space(sp)] * nids, agent_ids=list(IPPO_IDS), batch_size=nsamp, update_epochs=1,
+            agent = IPPO([obs_space] * nids, [gym_space(sp)] * nids, agent_ids=list(IDS), batch_size=nsamp, update_epochs=1,
                          actor_networks=[StochasticActor(obs_space, gym_space(sp), squash_output=True, action_std_init=case["std_init"], **kw)
                                          for _ in range(2)],
                          critic_networks=[ValueNetwork(obs_space, **kw) for _ in range(2)])
         else:
-            agent = IPPO([obs_space] * nids, [gym_space(sp)] * nids, agent_ids=list(IPPO_IDS), batch_size=nsamp, update_epochs=1,
+            agent = IPPO([obs_space] * nids, [gym_space(sp)] * nids, agent_ids=list(IDS), batch_size=nsamp, update_epochs=1,
                          action_std_init=case["std_init"],
                          net_config={"encoder_config": {"hidden_size": [8]}, "head_config": {"hidden_size": [8]}})
-        group = {"a_0": 0, "a_1": 0, "b_0": 1}
+        group = {i: agent.shared_agent_ids.index(agent.get_homo_id(i)) for i in IDS}      # policy index of each agent
+
+        def keyed(d, how):
+            """the same dictionary with its keys inserted in another order (callers are free to choose it)"""
+            ks = list(d)
+            if how == "reversed":
+                ks = ks[::-1]
+            elif how == "groups-swapped":
+                ks = sorted(ks, key=lambda i: (-group[i], IDS.index(i)))
+            elif how == "within-group-swapped":
+                ks = sorted(ks, key=lambda i: (group[i], -IDS.index(i)))
+            elif how == "sorted":
+                ks = sorted(ks)
+            elif how == "shuffled":
+                ks = [ks[j] for j in g.permutation(len(ks))]
+            return {k: d[k] for k in ks}
         for ac in agent.actors:
             self.tweak_head(ac, case, g)
         if box:      # the formula has one log_std row: both actors get the same (perturbed) value
@@ -618,7 +722,7 @@ class C16(vlib.Driver):
 
         def obs_dict():
             return {i: (g.uniform(-1, 1, (Ee, OBS_DIM)).astype(np.float32) if Ee > 1 else g.uniform(-1, 1, (OBS_DIM,)).astype(np.float32))
-                    for i in IPPO_IDS}
+                    for i in IDS}
 
         def logits_of(i, o):
             ac = agent.actors[group[i]]
@@ -633,37 +737,46 @@ class C16(vlib.Driver):
             infos = None
             masks = None
             if case["masked"]:
-                masks = {i: self.make_mask(sp, case["mask_kind"], Ee, g) for i in IPPO_IDS}
-                infos = {i: {"action_mask": (masks[i] if Ee > 1 else masks[i][0])} for i in IPPO_IDS}
+                masks = {i: self.make_mask(sp, case["mask_kind"], Ee, g) for i in IDS}
+                infos = keyed({i: {"action_mask": (masks[i] if Ee > 1 else masks[i][0])} for i in IDS}, case.get("ikey", "canonical"))
             for ac in agent.actors:
                 ac.eval()
-            lgs = {i: logits_of(i, o[i]) for i in IPPO_IDS}
+            lgs = {i: logits_of(i, o[i]) for i in IDS}
+            ko = keyed(o, case.get("okey", "canonical"))
+
+            def order_class(keys):
+                """how a caller's key order relates to agent_ids: agents of one policy group permuted / groups permuted / neither"""
+                within = any([k for k in keys if group[k] == gi] != [k for k in IDS if group[k] == gi] for gi in set(group.values()))
+                first = lambda ks: list(dict.fromkeys(group[k] for k in ks))
+                return "within-group-permuted" if within else ("groups-permuted" if first(keys) != first(IDS) else "canonical")
+            orders = {"obs": list(ko), "infos": list(infos) if infos else None,
+                      "infos_class": order_class(list(infos)) if infos else "none", "obs_class": order_class(list(ko))}
             try:
-                a, lp, ent, _ = agent.get_action(o, infos)
+                a, lp, ent, _ = agent.get_action(ko, infos)
             except Exception as e:      # the code under test raised: reported by the oracle, with the input
-                return {"env": env, "out": {}, "raised": f"{type(e).__name__}: {e}"}
-            env["logit"] = [r for i in IPPO_IDS for r in lgs[i]]
+                return {"env": env, "out": {}, "raised": f"{type(e).__name__}: {e}", "orders": orders}
+            env["logit"] = [r for i in IDS for r in lgs[i]]
             if masks is not None:
-                env["mask"] = [r for i in IPPO_IDS for r in masks[i].tolist()]
-            acts = [r for i in IPPO_IDS for r in np.asarray(a[i], dtype=np.float64).reshape(Ee, -1).tolist()]
+                env["mask"] = [r for i in IDS for r in masks[i].tolist()]
+            acts = [r for i in IDS for r in np.asarray(a[i], dtype=np.float64).reshape(Ee, -1).tolist()]
             env["sampled"] = acts
             if box:
                 env["log_std"] = rows2(agent.actors[0].head_net.log_std, 1)
             out["act"] = [x for r in acts for x in r]
-            out["lp"] = [x for i in IPPO_IDS for x in np.asarray(lp[i], dtype=np.float64).reshape(-1).tolist()]
-            out["ent"] = [x for i in IPPO_IDS for x in np.asarray(ent[i], dtype=np.float64).reshape(-1).tolist()]
-            return {"env": env, "out": out}
+            out["lp"] = [x for i in IDS for x in np.asarray(lp[i], dtype=np.float64).reshape(-1).tolist()]
+            out["ent"] = [x for i in IDS for x in np.asarray(ent[i], dtype=np.float64).reshape(-1).tolist()]
+            return {"env": env, "out": out, "orders": orders}
         # ippo_learn: a real rollout, then learn(); the re-evaluation inside _learn_individual is observed from outside
         keys = ("S", "A", "LP", "R", "Dn", "V")
-        ex = {k: {i: [] for i in IPPO_IDS} for k in keys}
+        ex = {k: {i: [] for i in IDS} for k in keys}
         for t in range(T):
             o = obs_dict()
             a, lp, ent, v = agent.get_action(o)
-            for i in IPPO_IDS:
+            for i in IDS:
                 ex["S"][i].append(o[i]); ex["A"][i].append(a[i]); ex["LP"][i].append(lp[i]); ex["V"][i].append(v[i])
                 ex["R"][i].append(np.ones(Ee) if Ee > 1 else 1.0); ex["Dn"][i].append(np.zeros(Ee) if Ee > 1 else 0.0)
         nxt = obs_dict()
-        nd = {i: (np.zeros(Ee) if Ee > 1 else np.zeros(1)) for i in IPPO_IDS}
+        nd = {i: (np.zeros(Ee) if Ee > 1 else np.zeros(1)) for i in IDS}
         ac0 = agent.actors[0]
         calls, ents = [], []
         with Tap(ac0) as tap:
@@ -682,7 +795,8 @@ class C16(vlib.Driver):
                 return res
             ac0.action_log_prob, ac0.forward = wrapped, fwd
             try:
-                agent.learn((ex["S"], ex["A"], ex["LP"], ex["R"], ex["Dn"], ex["V"], nxt, nd))
+                ko = case.get("okey", "canonical")
+                agent.learn(tuple(keyed(x, ko) for x in (ex["S"], ex["A"], ex["LP"], ex["R"], ex["Dn"], ex["V"], nxt, nd)))
             except Exception as e:
                 return {"env": env, "out": {}, "raised": f"{type(e).__name__}: {e}"}
             finally:
@@ -808,6 +922,13 @@ class C16(vlib.Driver):
         # the site names the preparation; a distribution clone is one site whatever else preceded it
         ptag = "+head_clone" if "head_clone" in (case.get("prep") or []) else (("+" + "+".join(case["prep"])) if case.get("prep") else "")
         site = f"{case['api']}:{scen}{ptag}:{sp['kind']}{one}:{'squash' if (case['squash'] and box) else 'plain'}"
+        if obs.get("orders") and obs["orders"]["infos_class"] not in ("none", "canonical"):
+            site += ":infos-" + obs["orders"]["infos_class"]
+        if case.get("mask_fmt") == "list" and case["masked"]:
+            site += ":list-mask"
+        if obs.get("raised") and site.endswith(":list-mask"):
+            return [Violation("raises", "raises:actor:list-mask", f"a mask given as a Python list of per-row arrays makes forward() raise {obs['raised']} "
+                              f"(scenario {scen}, {sp['kind']}); the code announces support for lists (isinstance(action_mask, (np.ndarray, list)))")]
         if obs.get("raised"):
             return [Violation("raises", f"raises:{site}", f"the call raised {obs['raised']} on a valid configuration")]
 
@@ -849,6 +970,16 @@ class C16(vlib.Driver):
                 if not close(want, out["lp2"][b], sl):
                     V("logprob-stored", f"row {b}: log_prob of the passed action {acts[b]} reported as {out['lp2'][b]!r}, "
                       f"definition under the current distribution gives {want!r} (logits {lg[b].tolist()}, log_std {ls})")
+                    break
+        # same policy, same observation, same action: the re-evaluated log-probability must be the one reported at rollout time
+        if scen == "ppo_eval" and case["variant"] == "same" and "lp_rollout" in out and "lp2" in out and not case.get("prep"):
+            for b in range(B):
+                if not close(out["lp_rollout"][b], out["lp2"][b], 1e-3 if sq else 0.0):
+                    masked_row = bool(env.get("mask")) and (0 in env["mask"][b])
+                    vs.append(Violation("reeval-same-policy", f"reeval-same-policy:ppo:ppo_eval:{sp['kind']}:{'masked' if masked_row else 'unmasked'}",
+                                        f"row {b}: get_action reported log_prob {out['lp_rollout'][b]!r} for action {env['action'][b]}"
+                                        f"{' under mask ' + str(env['mask'][b]) if masked_row else ''}; evaluate_actions on the same observation with the "
+                                        f"unchanged policy gives {out['lp2'][b]!r}"))
                     break
         # entropy
         for name, lgname, mname in (("ent", "logit", "mask"), ("ent2", "logit2", None)):
@@ -906,7 +1037,8 @@ class C16(vlib.Driver):
 
     # ---------- evidence helpers
     def key(self, case):
-        k = {x: case.get(x) for x in ("api", "scenario", "variant", "space", "squash", "masked", "B", "logit_mode", "std_init", "mask_kind", "seed", "prep")}
+        k = {x: case.get(x) for x in ("api", "scenario", "variant", "space", "squash", "masked", "B", "logit_mode", "std_init", "mask_kind", "seed", "prep",
+                                      "ids", "okey", "ikey", "obs_kind", "mask_fmt", "latent_dim")}
         return super().key(k)
 
     def nontrivial(self, case, obs):
@@ -923,6 +1055,15 @@ class C16(vlib.Driver):
                 f"net_config={'partial' if case['partial_cfg'] else 'complete'}"]
         if sp["kind"] == "box" and case["squash"]:
             labs.append("branch=cached-sample" if case["scenario"] in ("fresh", "reeval", "ppo_get") else "branch=atanh-of-stored")
+        if case.get("ids"):
+            labs += [f"obs-key-order={case.get('okey')}", f"infos-key-order={case.get('ikey') if case['masked'] else 'no-infos'}"]
+        labs.append(f"obs-kind={case.get('obs_kind', 'vector')}")
+        if case.get("latent_dim"):
+            labs.append(f"latent_dim={case['latent_dim']}(bounds 8..128)")
+        if len(case.get("prep") or []) >= 3:
+            labs.append("prep-chain>=3")
+        if case["masked"] and case["api"] in ("actor", "ppo"):
+            labs.append(f"mask-container={'list' if case.get('mask_fmt') == 'list' else ['int-array', 'bool-array', 'tensor'][case['seed'] % 3]}")
         for q in case.get("prep") or []:
             labs.append(f"prepared-by={q}")
         if not case.get("prep"):
